@@ -79,6 +79,37 @@ theorem C04_source_order (cap k : Nat) (ops : List Op) (h : CrashFree ops) (q : 
   · intro p hp ty
     exact (entryRows_filter_sublist p ty q).trans (chunk_sublist_log hc (hc.segsC p hp))
 
+/-- The flusher's regrouping is a stable partition, for a memtable of ANY size: the zone files
+that a flush writes for event type `ty` (zones of `z` rows, concatenated in zone-id order) hold,
+for every context `c`, exactly the buffer's events of (`ty`, `c`) in insertion order — whatever the
+other contexts and types in the buffer are and however many rows it has. (The engine's
+implementation is a per-event `push` into per-type vectors; a version that sorts the drained rows
+by (type, context) with an unstable sort satisfies this only below std's insertion-sort cut-off of
+20 rows — the `bigflush` stream flushes memtables of 24–64 rows with 2–3 types.) -/
+theorem C04_flush_regroup_stable (z : Nat) (evs : List Ev) (ty c : Nat) :
+    ((zonesOfRows z (flushRows evs ty)).flatten).filter (·.ctx == c) =
+      evs.filter (fun e => e.ty == ty && e.ctx == c) := by
+  rw [zonesOfRows_flatten]
+  have h := flushRows_filter_ok evs ty ⟨c, none⟩
+  have e1 : ∀ l : List Ev, l.filter (Sel.ok ⟨c, none⟩) = l.filter (·.ctx == c) := by
+    intro l; congr 1; funext a; simp [Sel.ok]
+  rw [e1, e1, List.filter_filter] at h
+  rw [h]
+  congr 1; funext a; exact Bool.and_comm _ _
+
+/-- The source tie behind the model of the flush path: no reordering call between
+`memtable.take()` and the zone writer, zones are plain slices (regenerated from the Rust text on
+every run; a change there breaks the extraction, not only this statement). -/
+theorem C04_flush_path_has_no_reordering :
+    Snel.Gen.C04.flusherReorderingCalls = 0 ∧ Snel.Gen.C04.zonePlanReorderingCalls = 0 := by decide
+
+/-- Non-vacuity of `C04_flush_regroup_stable`: 26 rows, two types, three contexts (`c10 < c2`),
+interleaved; type 1's zone files list context 0, then 10, then 2, each in insertion order. -/
+example :
+    let evs : List Ev := (List.range 26).map fun i => ⟨i + 1, [2, 10, 0].getD (i % 3) 0, (i / 3) % 2⟩
+    (zonesOfRows 4 (flushRows evs 1)).map (·.map (·.k)) = [[6, 12, 18, 24], [5, 11, 17, 23], [4, 10, 16, 22]] := by
+  decide
+
 /-- Order across flushed segments: the whole segment flow of a typed (or single-type)
 selection — directories in label order, zones in id order — is in append order, for every
 crash-free history (no compaction: all directories are level 0). -/
